@@ -108,22 +108,29 @@ InputChoices ==
    \cup {<< <<p, v>> >> : p \in {x \in Signed : S.sig[x].sec \in DOMAIN S.proof /\ S.proof[S.sig[x].sec].lock # "none"},
                            v \in {"nosign", "signother"}}
 
+\* honest input lists: up to three distinct unspent proofs worth at least `need` plus their fee
+HonestChoices(need) ==
+  {ch \in {[i \in 1..Cardinality(T) |-> <<SetToSeq(T)[i], "">>] : T \in {X \in SUBSET Unspent : Cardinality(X) \in 1..3}} :
+     LET f == [i \in DOMAIN ch |-> InFact(ch[i][1], "")] IN InSum(f) >= need + Fee(S, f)}
+
 InFacts(ch) == [i \in DOMAIN ch |-> InFact(ch[i][1], ch[i][2])]
 InSpecs(ch) == [i \in DOMAIN ch |-> InSpecOf(ch[i][1], ch[i][2])]
 
 -----------------------------------------------------------------------------
 Record(op) == hist' = Append(hist, op) /\ n' = n + 1 /\ done' = done
 
-\* every generated history starts funded: one quote of 13 paid and minted as 8+4+1
+\* every generated history starts funded: one quote of 13 paid and minted as 8+4+1,
+\* the 4 locked to key K1 (P2PK) so that witness-carrying proofs take part in every flow
 FundAmts == <<8, 4, 1>>
+FundLocks == <<"none", "K1", "none">>
 FundedState(f) ==
   LET S0 == InitState([k \in {"k0"} |-> [fee |-> f, active |-> TRUE]], [maxbal |-> 0, maxmint |-> 0, maxmelt |-> 0])
       S1 == LnSettle(NewMintQuote(S0, "mq1", [amt |-> 13, lock |-> "none"]), "mq1")
-      a == [q |-> "mq1", outs |-> [i \in 1..3 |-> OutFact(i, "k0", FundAmts[i], "none")], ovf |-> FALSE, sig |-> "none", lnerr |-> FALSE]
+      a == [q |-> "mq1", outs |-> [i \in 1..3 |-> OutFact(i, "k0", FundAmts[i], FundLocks[i])], ovf |-> FALSE, sig |-> "none", lnerr |-> FALSE]
   IN MintEffect(SyncMq(S1, "mq1", FALSE), a, << >>)
 FundedHist(f) ==
   <<[op |-> "cfg", fee |-> f], [op |-> "mintquote", amt |-> 13, lock |-> "none"], [op |-> "settle", q |-> "mq1"],
-    [op |-> "mint", q |-> "mq1", outs |-> [i \in 1..3 |-> OutSpec("active", FundAmts[i], "none")], sig |-> "none"]>>
+    [op |-> "mint", q |-> "mq1", outs |-> [i \in 1..3 |-> OutSpec("active", FundAmts[i], FundLocks[i])], sig |-> "none"]>>
 
 Init ==
   /\ \E f \in Pick(Fees) :
@@ -185,7 +192,7 @@ MintAct ==
 
 SwapAct ==
   /\ On("swap")
-  /\ \E ch \in Pick(InputChoices) :
+  /\ \E ch \in Pick(IF HonestChoices(1) # {} /\ Often(55) THEN HonestChoices(1) ELSE InputChoices) :
      LET ins == InFacts(ch)
          net == InSum(ins) - Fee(S, ins)
      IN \E amts \in Pick(IF net >= 1 THEN AmountLists(net) ELSE {<<1>>}) :
@@ -231,8 +238,10 @@ LnCalls(q, pay, status) ==
 
 MeltAct ==
   /\ On("melt")
-  /\ \E q \in Pick(DOMAIN S.lq) :
-     \E ch \in Pick(InputChoices) :
+  /\ \E q \in Pick(LET open == {x \in DOMAIN S.lq : S.lq[x].st = "UNPAID"}
+                   IN IF open # {} /\ Often(80) THEN open ELSE DOMAIN S.lq) :
+     \E ch \in Pick(LET hc == HonestChoices(S.lq[q].amt + S.lq[q].reserve)
+                    IN IF hc # {} /\ Often(70) THEN hc ELSE InputChoices) :
      \E pay \in Pick(PayAnswers), st \in Pick(StatusAnswers) :
        LET ins == InFacts(ch)
            status == IF pay \in {"failed", "error"} THEN <<st>> ELSE << >>
